@@ -94,3 +94,225 @@ Example C16_ex_armored :
   let t := armor62_seal m (armor_type_of 0) [] in
   armored_prefix (firstn 40 t) = ([], ClsShort) /\ armored_prefix t = ([], Cls 0 (mkV 2 0)).
 Proof. vm_compute. repeat split. Qed.
+
+(* ===== to paste at the END of props/C16.v ===== *)
+(* SOURCE TIES, stream level (proofs/GoAstProofs8b.v): the terms f_saltpack_IsSaltpackBinary, f_saltpack_IsSaltpackArmored,
+   f_saltpack_ClassifyStream and f_saltpack_ClassifyEncryptedStreamAndMakeDecoder are generated on every run from the Go
+   syntax trees of /repo/classify_and_decrypt.go (gen/GoAstEntry.v); under the Go semantics of model/GoLang2.v, over the
+   documented contract of bufio.Reader.Peek / Size (GoAstProofs8b.peek: trusted), they compute exactly the specification
+   functions isbin_spec / isarm_spec / cs_spec / ced_spec built from the model's binary_slice and armored_prefix, for ALL
+   arguments, and leave the reader unchanged: classification consumes no input.  The dispatch theorem holds for ARBITRARY
+   meanings of the four entry points and is instantiated with the meaning GoAstProofs7c.v proves for the binary ones.
+   An edit of one of these functions in /repo changes the term and the theorem has to be re-established. *)
+From SP Require Crypto Verify Decrypt Signcrypt GoLang2 GoAstEntry GoAstProofs7c GoAstProofs8b.
+
+Section C16_source_stream.
+Import Crypto Verify Decrypt Signcrypt GoLang2 GoAstEntry GoAstProofs8b String.StringSyntax.
+Local Open Scope string_scope.
+
+Theorem C16_source_IsSaltpackBinary (st : bufrd) :
+  let r := run_func2 ext_cls f_saltpack_IsSaltpackBinary [g_bufrd st] in
+  fst r = spec_out g_bin_res (isbin_spec st) /\
+  (isbin_spec st <> None -> lookup "stream" (snd r) = Some (g_bufrd st)).
+Proof. exact (go_IsSaltpackBinary st). Qed.
+
+Theorem C16_source_IsSaltpackArmored (st : bufrd) :
+  let r := run_func2 ext_cls f_saltpack_IsSaltpackArmored [g_bufrd st] in
+  fst r = spec_out g_arm_res (isarm_spec st) /\
+  (isarm_spec st <> None -> lookup "stream" (snd r) = Some (g_bufrd st)).
+Proof. exact (go_IsSaltpackArmored st). Qed.
+
+Theorem C16_source_ClassifyStream (st : bufrd) :
+  let r := run_func2 ext_cls f_saltpack_ClassifyStream [g_bufrd st] in
+  fst r = spec_out g_cs_res (cs_spec st) /\
+  (cs_spec st <> None -> lookup "stream" (snd r) = Some (g_bufrd st)).
+Proof. exact (go_ClassifyStream st). Qed.
+
+Theorem C16_source_ClassifyEncryptedStreamAndMakeDecoder
+        (nds : gval -> gval -> gval -> option (gval * gval * gval))
+        (ndds : gval -> gval -> gval -> option (gval * gval * gval * gval))
+        (nsos : gval -> gval -> gval -> option (gval * gval * gval))
+        (ndsos : gval -> gval -> gval -> option (gval * gval * gval * gval))
+        (d : bytes) (e : String.string * list gval) (osz : option Z) (RING RV : gval) :
+  fst (run_func2 (ext_ced nds ndds nsos ndsos) f_saltpack_ClassifyEncryptedStreamAndMakeDecoder [g_src d e osz; RING; RV])
+  = spec_out (fun x => x) (ced_spec nds ndds nsos ndsos d e osz RING RV).
+Proof. exact (go_ClassifyEncryptedStreamAndMakeDecoder nds ndds nsos ndsos d e osz RING RV). Qed.
+
+Theorem C16_source_cs_spec_model (st : bufrd) :
+  (0 < br_size st)%Z -> br_data st <> [] -> clean_end st -> cs_spec st = cs_model st.
+Proof. exact (cs_spec_model st). Qed.
+
+Theorem C16_source_cs_sound_armored (st : bufrd) (brand : bytes) (t : Z) (v : gval) :
+  (0 < br_size st)%Z ->
+  cs_spec st = Some (true, brand, t, v, None) ->
+  exists v' ty body,
+    v = g_version v' /\
+    match_header (normalise (fst (peek st (br_size st)))) = Some (brand, ty, body) /\
+    ty = label_of t /\
+    binary_slice (fst (BaseX.decode base62 body)) = Cls t v'.
+Proof. exact (cs_sound_armored st brand t v). Qed.
+
+Theorem C16_source_cs_sound_binary (st : bufrd) (brand : bytes) (t : Z) (v : gval) :
+  (0 < br_size st)%Z ->
+  cs_spec st = Some (false, brand, t, v, None) ->
+  brand = [] /\ known_type t = true /\
+  exists v' skip rest1 fv r1 vv r2 tv r3,
+    v = g_version v' /\
+    (skip = 3 \/ skip = 4 \/ skip = 5 \/ skip = 6 \/ skip = 7 \/ skip = 8 \/ skip = 10)%nat /\
+    skipn skip (fst (peek st 23)) = rest1 /\
+    mp_read rest1 = POk fv r1 /\ as_string fv = DOk format_name /\
+    mp_read r1 = POk vv r2 /\ view_version vv = DOk v' /\
+    mp_read r2 = POk tv r3 /\ as_int tv = DOk t.
+Proof. exact (cs_sound_binary st brand t v). Qed.
+
+Theorem C16_source_cs_armored_stable (maj mi typ : Z) (fields : list mval) (rest brand : bytes) (size : Z) :
+  spec_header_ok maj mi typ fields -> brand_ok brand ->
+  let msg := spec_message maj mi typ fields rest in
+  (32 <= length msg)%nat ->
+  let text := armor62_seal msg (armor_type_of typ) brand in
+  (0 < size)%Z ->
+  cs_spec (mkBR text eof_err size) = Some (true, brand, typ, g_version (mkV maj mi), None) \/
+  cs_spec (mkBR text eof_err size) = Some (false, [], (-1)%Z, g_vzero_lit, short_err).
+Proof. exact (cs_armored_stable maj mi typ fields rest brand size). Qed.
+
+Theorem C16_source_cs_binary_stable (maj mi typ : Z) (fields : list mval) (rest : bytes) (size : Z) :
+  spec_header_ok maj mi typ fields ->
+  let msg := spec_message maj mi typ fields rest in
+  (23 <= length msg)%nat -> (23 <= size)%Z ->
+  cs_spec (mkBR msg eof_err size) = Some (false, [], typ, g_version (mkV maj mi), None).
+Proof. exact (cs_binary_stable maj mi typ fields rest size). Qed.
+
+Theorem C16_source_compose_IsSaltpackBinarySlice (b : bytes) :
+  match ext_cls "IsSaltpackBinarySlice" [VBytes b] with
+  | Some rs => g_classification (ORet rs) = g_classification (run_func ext_decode f_saltpack_IsSaltpackBinarySlice [VBytes b])
+  | None => binary_slice b = ClsUnmod
+  end.
+Proof. exact (compose_IsSaltpackBinarySlice b). Qed.
+
+Theorem C16_source_compose_IsSaltpackArmored (st : bufrd) :
+  let r := run_func2 ext_cls f_saltpack_IsSaltpackArmored [g_bufrd st] in
+  ext_cls "IsSaltpackArmored" [g_bufrd st] =
+  match fst r, lookup "stream" (snd r) with ORet rs, Some s => Some (rs ++ [s])%list | _, _ => None end.
+Proof. exact (compose_IsSaltpackArmored st). Qed.
+
+Theorem C16_source_compose_IsSaltpackBinary (st : bufrd) :
+  let r := run_func2 ext_cls f_saltpack_IsSaltpackBinary [g_bufrd st] in
+  ext_cls "IsSaltpackBinary" [g_bufrd st] =
+  match fst r, lookup "stream" (snd r) with ORet rs, Some s => Some (rs ++ [s])%list | _, _ => None end.
+Proof. exact (compose_IsSaltpackBinary st). Qed.
+
+Theorem C16_source_compose_ClassifyStream
+        (nds : gval -> gval -> gval -> option (gval * gval * gval))
+        (ndds : gval -> gval -> gval -> option (gval * gval * gval * gval))
+        (nsos : gval -> gval -> gval -> option (gval * gval * gval))
+        (ndsos : gval -> gval -> gval -> option (gval * gval * gval * gval)) (st : bufrd) :
+  let r := run_func2 ext_cls f_saltpack_ClassifyStream [g_bufrd st] in
+  ext_ced nds ndds nsos ndsos "ClassifyStream" [g_bufrd st] =
+  match fst r, lookup "stream" (snd r) with ORet rs, Some s => Some (rs ++ [s])%list | _, _ => None end.
+Proof. exact (compose_ClassifyStream nds ndds nsos ndsos st). Qed.
+
+Theorem C16_source_ced_errors
+        (nds : gval -> gval -> gval -> option (gval * gval * gval))
+        (ndds : gval -> gval -> gval -> option (gval * gval * gval * gval))
+        (nsos : gval -> gval -> gval -> option (gval * gval * gval))
+        (ndsos : gval -> gval -> gval -> option (gval * gval * gval * gval))
+        (d : bytes) (e : String.string * list gval) (osz : option Z) (RING RV : gval)
+        (arm : bool) (b : bytes) (t : Z) (v : gval) (err : option (String.string * list gval)) :
+  cs_spec (new_reader d e osz) = Some (arm, b, t, v, err) ->
+  (is_err "ErrShortSliceOrBuffer" err = true ->
+   ced_spec nds ndds nsos ndsos d e osz RING RV = Some (ced_fail (VErr "ErrShortSliceOrBuffer" []))) /\
+  (err <> None -> is_err "ErrShortSliceOrBuffer" err = false ->
+   ced_spec nds ndds nsos ndsos d e osz RING RV = Some (ced_fail (VErr "ErrNotASaltpackMessage" []))) /\
+  (err = None -> t <> 0%Z -> t <> 3%Z ->
+   ced_spec nds ndds nsos ndsos d e osz RING RV = Some (ced_fail (VErr "ErrWrongMessageType" [VInt 0; VInt t]))).
+Proof. exact (ced_errors nds ndds nsos ndsos d e osz RING RV arm b t v err). Qed.
+
+Theorem C16_source_ced_binary_encryption (c : crypto) (pm : bytes -> gval) (vd : validator) (kr : keyring)
+        (signers : sigring) (rv : resolver) (d : bytes) (osz : option Z) (RING RV : gval) (b : bytes) (v : gval) :
+  cs_spec (new_reader d eof_err osz) = Some (false, b, 0%Z, v, None) ->
+  fst (run_func2 (ext_ced_m c pm vd kr signers rv) f_saltpack_ClassifyEncryptedStreamAndMakeDecoder [g_src d eof_err osz; RING; RV])
+  = direct_enc c pm vd kr d false (VBytes []) v.
+Proof. exact (ced_binary_encryption c pm vd kr signers rv d osz RING RV b v). Qed.
+
+Theorem C16_source_ced_binary_signcryption (c : crypto) (pm : bytes -> gval) (vd : validator) (kr : keyring)
+        (signers : sigring) (rv : resolver) (d : bytes) (osz : option Z) (RING RV : gval) (b : bytes) (v : gval) :
+  cs_spec (new_reader d eof_err osz) = Some (false, b, 3%Z, v, None) ->
+  fst (run_func2 (ext_ced_m c pm vd kr signers rv) f_saltpack_ClassifyEncryptedStreamAndMakeDecoder [g_src d eof_err osz; RING; RV])
+  = direct_sc c kr signers rv d false (VBytes []) v.
+Proof. exact (ced_binary_signcryption c pm vd kr signers rv d osz RING RV b v). Qed.
+
+Theorem C16_source_ced_armored_encryption (c : crypto) (pm : bytes -> gval) (vd : validator) (kr : keyring)
+        (signers : sigring) (rv : resolver) (d : bytes) (osz : option Z) (RING RV : gval) (b : bytes) (v : gval)
+        (dd : dearmored) :
+  cs_spec (new_reader d eof_err osz) = Some (true, b, 0%Z, v, None) ->
+  dearmor (Some mt_encryption) d = Ok dd ->
+  fst (run_func2 (ext_ced_m c pm vd kr signers rv) f_saltpack_ClassifyEncryptedStreamAndMakeDecoder [g_src d eof_err osz; RING; RV])
+  = direct_enc c pm vd kr (da_payload dd) true (VBytes (da_brand dd)) v.
+Proof. exact (ced_armored_encryption c pm vd kr signers rv d osz RING RV b v dd). Qed.
+
+Theorem C16_source_ced_armored_signcryption (c : crypto) (pm : bytes -> gval) (vd : validator) (kr : keyring)
+        (signers : sigring) (rv : resolver) (d : bytes) (osz : option Z) (RING RV : gval) (b : bytes) (v : gval)
+        (dd : dearmored) :
+  cs_spec (new_reader d eof_err osz) = Some (true, b, 3%Z, v, None) ->
+  dearmor (Some mt_encryption) d = Ok dd ->
+  fst (run_func2 (ext_ced_m c pm vd kr signers rv) f_saltpack_ClassifyEncryptedStreamAndMakeDecoder [g_src d eof_err osz; RING; RV])
+  = direct_sc c kr signers rv (da_payload dd) true (VBytes (da_brand dd)) v.
+Proof. exact (ced_armored_signcryption c pm vd kr signers rv d osz RING RV b v dd). Qed.
+
+Theorem C16_source_ced_genuine_binary_encryption (c : crypto) (pm : bytes -> gval) (vd : validator) (kr : keyring)
+        (signers : sigring) (rv : resolver) (maj mi : Z) (fields : list mval) (rest : bytes) (osz : option Z) (RING RV : gval) :
+  spec_header_ok maj mi 0 fields ->
+  let msg := spec_message maj mi 0 fields rest in
+  (23 <= length msg)%nat ->
+  fst (run_func2 (ext_ced_m c pm vd kr signers rv) f_saltpack_ClassifyEncryptedStreamAndMakeDecoder [g_src msg eof_err osz; RING; RV])
+  = direct_enc c pm vd kr msg false (VBytes []) (g_version (mkV maj mi)).
+Proof. exact (ced_genuine_binary_encryption c pm vd kr signers rv maj mi fields rest osz RING RV). Qed.
+
+Theorem C16_source_ced_genuine_binary_signcryption (c : crypto) (pm : bytes -> gval) (vd : validator) (kr : keyring)
+        (signers : sigring) (rv : resolver) (maj mi : Z) (fields : list mval) (rest : bytes) (osz : option Z) (RING RV : gval) :
+  spec_header_ok maj mi 3 fields ->
+  let msg := spec_message maj mi 3 fields rest in
+  (23 <= length msg)%nat ->
+  fst (run_func2 (ext_ced_m c pm vd kr signers rv) f_saltpack_ClassifyEncryptedStreamAndMakeDecoder [g_src msg eof_err osz; RING; RV])
+  = direct_sc c kr signers rv msg false (VBytes []) (g_version (mkV maj mi)).
+Proof. exact (ced_genuine_binary_signcryption c pm vd kr signers rv maj mi fields rest osz RING RV). Qed.
+
+Theorem C16_source_ced_genuine_armored (c : crypto) (pm : bytes -> gval) (vd : validator) (kr : keyring)
+        (signers : sigring) (rv : resolver) (maj mi typ : Z) (fields : list mval) (rest brand : bytes) (osz : option Z)
+        (RING RV : gval) :
+  typ = 0%Z \/ typ = 3%Z ->
+  spec_header_ok maj mi typ fields -> brand_ok brand ->
+  let msg := spec_message maj mi typ fields rest in
+  (32 <= length msg)%nat ->
+  let text := armor62_seal msg mt_encryption brand in
+  let r := fst (run_func2 (ext_ced_m c pm vd kr signers rv) f_saltpack_ClassifyEncryptedStreamAndMakeDecoder
+                          [g_src text eof_err osz; RING; RV]) in
+  r = (if (typ =? 0)%Z then direct_enc c pm vd kr msg true (VBytes brand) (g_version (mkV maj mi))
+       else direct_sc c kr signers rv msg true (VBytes brand) (g_version (mkV maj mi))) \/
+  r = ORet (ced_fail (VErr "ErrShortSliceOrBuffer" [])).
+Proof. exact (ced_genuine_armored c pm vd kr signers rv maj mi typ fields rest brand osz RING RV). Qed.
+
+End C16_source_stream.
+
+Print Assumptions C16_source_IsSaltpackBinary.
+Print Assumptions C16_source_IsSaltpackArmored.
+Print Assumptions C16_source_ClassifyStream.
+Print Assumptions C16_source_ClassifyEncryptedStreamAndMakeDecoder.
+Print Assumptions C16_source_cs_spec_model.
+Print Assumptions C16_source_cs_sound_armored.
+Print Assumptions C16_source_cs_sound_binary.
+Print Assumptions C16_source_cs_armored_stable.
+Print Assumptions C16_source_cs_binary_stable.
+Print Assumptions C16_source_compose_IsSaltpackBinarySlice.
+Print Assumptions C16_source_compose_IsSaltpackArmored.
+Print Assumptions C16_source_compose_IsSaltpackBinary.
+Print Assumptions C16_source_compose_ClassifyStream.
+Print Assumptions C16_source_ced_errors.
+Print Assumptions C16_source_ced_binary_encryption.
+Print Assumptions C16_source_ced_binary_signcryption.
+Print Assumptions C16_source_ced_armored_encryption.
+Print Assumptions C16_source_ced_armored_signcryption.
+Print Assumptions C16_source_ced_genuine_binary_encryption.
+Print Assumptions C16_source_ced_genuine_binary_signcryption.
+Print Assumptions C16_source_ced_genuine_armored.
+
